@@ -555,7 +555,13 @@ func (aof *AppendableFile) ReadAt(bs []byte, off int64) (n int, err error) {
 		return 0, err
 	}
 
-	cBs := make([]byte, binary.BigEndian.Uint32(clenBs))
+	// the length prefix comes from disk: a compressed entry cannot extend past the end of the data
+	cLen := int64(binary.BigEndian.Uint32(clenBs))
+	if cLen > aof.offset()-off-4 {
+		return 0, io.EOF
+	}
+
+	cBs := make([]byte, cLen)
 	_, err = aof.readAt(cBs, off+4)
 	if err != nil {
 		return 0, err
